@@ -16,7 +16,7 @@ RouteTabs == IF Full THEN PartialFns(U, {2, 5}) ELSE PartialFns({"a1", "a2"}, {5
 HostTabs == IF Full THEN PartialFns({"c1", "c2"}, {0, 3}) ELSE PartialFns({"c1"}, {3})
 AttrSets == {<<>>, [capacity |-> 100], [capacity |-> 100, foo |-> "bar"], [foo |-> "bar"]}
 Args == {[defroute |-> dr, routes |-> r, defhost |-> dh, hosting |-> h, attrs |-> at] :
-           dr \in {1, 4}, r \in RouteTabs, dh \in {0, 7}, h \in HostTabs, at \in AttrSets}
+           dr \in {0, 1, 4}, r \in RouteTabs, dh \in {0, 7}, h \in HostTabs, at \in AttrSets}
 \* which of the optional constructor arguments are passed explicitly (a default left out must behave as the default)
 Idxs == {[kind |-> "list", items |-> <<"1", "2", "3">>],
          [kind |-> "list", items |-> <<"x">>],
